@@ -667,3 +667,7 @@ def check(run, replay=None):
     run.require_counter("uniq_grain_list_runs", 100)
     run.require_counter("getgroup_unknown_refused", 4)
     run.require_counter("groups_unchanged_after_use", 10)
+
+
+# workloads added in seeding rounds 7-10 (DESIGN.md sections 13.9-13.12)
+LEVEL_TEXT = LEVEL_TEXT + ' Later additions: makeuniq on grains refined since the ubi file was read (two scans per grain); hkl lists as float32 / int16 with orbit members that differ in one small index; lists of 2-4 reflections; point_by_point.idxpoint on simulated on-axis voxels of four lattice systems.'
